@@ -37,7 +37,7 @@ RULE = (
     "Facet deviation: after 0-3 conforming messages + validate() + reset() (or none), exactly one deviation on one message "
     "- drop a declared field; add an undeclared field whose name is random, or one of exception/reason/traceback/"
     "action_type/message_type/action_status, or a name declared by ANOTHER type or another phase of the same ActionType; "
-    "a value of another class; a value the extra validator rejects; a wrong for_value constant; a value that is not JSON-"
+    "a value of another class (also one that compares equal to the conforming value logged just before: 1 for 1.0, 1.0 for 1, 1 for True); a value the extra validator rejects; a wrong for_value constant; a value that is not JSON-"
     "encodable (typed or untyped message; an object of a foreign class, or a str/int the field accepts but eliot's own "
     "FileDestination cannot encode: lone surrogate, int >= 2**64) - must make validate() raise ValidationError or TypeError; extras on failed ends "
     "and tracebacks (extractor fields) must be accepted; an unflushed traceback must make check_for_errors raise "
@@ -54,7 +54,7 @@ ASSUMPTIONS = [
 ]
 
 CLASSES = {"str": str, "int": int, "float": float, "bool": bool, "list": list, "dict": dict, "none": None}
-SAMPLE = {"str": "s", "int": 3, "float": 1.5, "bool": True, "list": [1], "dict": {"k": 1}, "none": None}
+SAMPLE = {"str": "s", "int": 1, "float": 1.0, "bool": True, "list": [1], "dict": {"k": 1}, "none": None}
 KEYS = ["a", "b", "c", "size", "path", "user"]
 
 
@@ -115,6 +115,21 @@ def bad_value(spec):
         return 3
     if kind == "ser":
         return Unencodable() if not param else None
+    return None
+
+
+def equal_but_wrong(spec):
+    """A value that compares (and hashes) equal to the field's conforming sample but is of a class it rejects."""
+    key, kind, param = spec
+    if kind not in ("types", "shorthand"):
+        return None
+    allowed = set(param)
+    if allowed == {"float"}:
+        return 1  # the sample is 1.0
+    if allowed == {"int"}:
+        return 1.0  # the sample is 1
+    if allowed == {"bool"}:
+        return 1  # the sample is True
     return None
 
 
@@ -186,6 +201,9 @@ def emit(world, index, deviation=None, fail=False, tb=False):
             elif kind == "bad-scalar":
                 spec = specs[arg % len(specs)]
                 kw[spec[0]] = unencodable_scalar(spec)
+            elif kind == "bad-equal":
+                spec = specs[arg % len(specs)]
+                kw[spec[0]] = equal_but_wrong(spec)
         return kw
 
     if t["kind"] == "message":
@@ -220,6 +238,8 @@ def applicable(world, index, deviation):
         return True
     if kind == "bad-scalar":
         return bool(specs) and unencodable_scalar(specs[arg % len(specs)]) is not None
+    if kind == "bad-equal":
+        return bool(specs) and equal_but_wrong(specs[arg % len(specs)]) is not None
     if kind == "extra":
         if arg in [f[0] for f in specs]:
             return False
@@ -315,6 +335,13 @@ def check_deviation(case):
             deviation[0], deviation[2] = found[deviation[2] % len(found)]
         else:
             deviation = [None, "untyped-scalar", None]
+    if deviation[1] == "bad-equal":
+        # aim at a single-class numeric/bool field, wherever it is (the conforming equal value is logged first: warm-up)
+        found = [(ph, i) for ph in phases for i, f in enumerate(t0[ph]) if equal_but_wrong(f) is not None]
+        if found:
+            deviation[0], deviation[2] = found[deviation[2] % len(found)]
+        else:
+            return {"skipped": True}
     if deviation[1] in ("drop", "bad") and not applicable(world, idx, deviation):
         for ph in phases:
             if applicable(world, idx, [ph, deviation[1], deviation[2]]):
@@ -514,6 +541,8 @@ def deviation_strategy():
         st.tuples(st.integers(0, 2), st.sampled_from(["fields", "start", "success"]), st.just("extra-foreign"), st.integers(0, 5)),
         st.tuples(st.integers(0, 2), st.just("fields"), st.just("untyped-unencodable"), st.just(0)),
         st.tuples(st.integers(0, 2), st.sampled_from(["fields", "start", "success"]), st.just("bad-scalar"), st.integers(0, 5)),
+        st.tuples(st.integers(0, 2), st.sampled_from(["fields", "start", "success"]), st.just("bad-equal"), st.integers(0, 5)),
+        st.tuples(st.integers(0, 2), st.sampled_from(["fields", "start", "success"]), st.just("bad-equal"), st.integers(0, 5)),
     ).map(list)
     return st.builds(
         lambda warmup, before, after, dev, types: {"warmup": warmup, "before": before, "after": after, "deviation": dev, "types": types},
